@@ -31,6 +31,7 @@ def build(contracts):
     u.stub(FD, 'weekday', 'impl NaiveDate {', cid='NaiveDate::weekday')
     u.stub(FD, 'add_days', 'impl NaiveDate {', cid='NaiveDate::add_days')
     u.prove(FD, 'week', 'impl NaiveDate {', cid='NaiveDate::week')
+    u.stub_all(FD, 'impl NaiveDate {', 'NaiveDate')
     u.raw('}\nimpl NaiveWeek {')
     u.prove(FM, 'new', 'impl NaiveWeek {', cid='NaiveWeek::new')
     for n in ['checked_first_day', 'checked_last_day']:
